@@ -127,6 +127,7 @@ def shards(tier, seed):
             for k in range(n):
                 out.append(("mount", iface, name, k, n))
         out.append(("hosts", iface))
+    out.append(("threads",))
     return out
 
 
@@ -134,8 +135,29 @@ def deep_paths():
     return PATHS + ["/a/a/a", "/a/b/a/x", "/b/b/b/", "/a/a", "/b/a/b"]
 
 
+def thread_family(r, tier):
+    import os
+    from ..core.runner import REPO
+    files = [os.path.join(REPO, "baize", x) for x in ("routing.py", "wsgi/routing.py")]
+    log = []
+    tree = [("/a", [("/b", None), ("", None)]), ("/é", None), ("", None)]
+    app = build("wsgi", tree, log)
+    reqs = {"a-b": SV.AReq(path="/a/b/x", root="/r"), "a": SV.AReq(path="/a/q"), "e": SV.AReq(path="/é/y"), "other": SV.AReq(path="/zzz"), "none": SV.AReq(path="nomatch")}
+    pairs = [(x, y) for x in reqs for y in reqs if x < y]
+    SV.wsgi_thread_pairs(r, "Subpaths", app, reqs, pairs, files, bound=1 if tier == "quick" else 2)
+    from baize import wsgi as W
+    happ = W.Hosts((r"a\.com", leaf("wsgi", ["h0"], log)), (r".*\.org", leaf("wsgi", ["h1"], log)))
+    hreqs = {"a": SV.AReq(headers=[("Host", "a.com")]), "org": SV.AReq(headers=[("Host", "x.org")]), "no": SV.AReq(headers=[("Host", "b.net")])}
+    SV.wsgi_thread_pairs(r, "Hosts", happ, hreqs, [("a", "org"), ("a", "no"), ("no", "org")], files, bound=1 if tier == "quick" else 2)
+    r.count("states", 1)
+    r.sample({"threads": "two requests on one Subpaths/Hosts object, line-level schedules"})
+
+
 def run_shard(desc, tier):
     r = R()
+    if desc[0] == "threads":
+        thread_family(r, tier)
+        return r
     if desc[0] == "mount":
         _, iface, name, k, n = desc
         flat, nested, deep = trees(tier)
@@ -232,6 +254,9 @@ def _untuple(t):
 
 def replay(w):
     r = R()
+    if "threads" in w:
+        thread_family(r, "quick")
+        return bool(r.viol), {"violations": sorted(r.viol), "texts": [v[2][:300] for v in r.viol.values()]}
     iface = w["iface"]
     if w["kind"] == "mount":
         tree = _untuple(w["tree"])
